@@ -26,6 +26,7 @@ import (
 	"time"
 
 	"github.com/RoaringBitmap/roaring/v2"
+	"github.com/RoaringBitmap/roaring/v2/roaring64"
 )
 
 type gateID struct {
@@ -311,29 +312,28 @@ func (g *wGraph) nextEdge(cur int, r *rand.Rand) int {
 }
 
 func walkOnce(g *wGraph, cfg *parConfig, tr int, r *rand.Rand, forced []int) (evs []map[string]any, dev, mismatch *walkDev, steps int) {
-	bms := parInputs(cfg, r)
-	want := parExpected(cfg, bms)
+	call := parPrepare(cfg, r)
 	s := newWalkSched(tr)
 	setGateFunc(s.gate)
 	baseline := runtime.NumGoroutine()
-	done := make(chan *roaring.Bitmap, 1)
+	done := make(chan string, 1)
 	go func() {
 		defer func() {
 			if p := recover(); p != nil {
 				s.mu.Lock()
 				s.record(102, "panic", 0)
 				s.mu.Unlock()
-				done <- nil
+				done <- "panic"
 			}
 		}()
-		done <- parCall(cfg, bms)
+		done <- call()
 	}()
 	var path []int
 	fail := func(step int, what string, detail map[string]any) *walkDev {
 		return &walkDev{Tr: tr, Step: step, What: what, Detail: detail, Path: append([]int(nil), path...)}
 	}
 	cur := g.init
-	var res *roaring.Bitmap
+	res := ""
 	returned := false
 	for step := 0; ; step++ {
 		steps = step
@@ -478,10 +478,8 @@ func walkOnce(g *wGraph, cfg *parConfig, tr int, r *rand.Rand, forced []int) (ev
 	switch {
 	case !returned:
 		viol("call-did-not-return", nil)
-	case res == nil:
-		viol("panic", nil)
-	case !res.Equals(want):
-		viol("wrong-result", map[string]any{"got": res.GetCardinality(), "want": want.GetCardinality()})
+	case res != "returned":
+		viol(res, nil)
 	default:
 		s.mu.Lock()
 		left := len(s.parkedP)
@@ -525,7 +523,7 @@ func setGateFunc(f func(string, int)) {
 	gateFn = f
 	if !gateFnSet {
 		gateFnSet = true
-		roaring.VerifGate = func(site string, id int) {
+		hook := func(site string, id int) {
 			gateFnMu.Lock()
 			c := gateFn
 			gateFnMu.Unlock()
@@ -533,6 +531,8 @@ func setGateFunc(f func(string, int)) {
 				c(site, id)
 			}
 		}
+		roaring.VerifGate = hook
+		roaring64.VerifGate = hook
 	}
 	gateFnMu.Unlock()
 }
